@@ -162,3 +162,31 @@ def check_child_thread_not_daemon(ctx, rule):
 
 def last_attr_(call):
     return call.func.attr if isinstance(call.func, ast.Attribute) else (call.func.id if isinstance(call.func, ast.Name) else None)
+
+
+def check_spawn_context(ctx, rule):
+    """Every child process of the worker hierarchy is created through multiprocessing.get_context('spawn') - the literal.  A forked child inherits a
+    copy of everything the library keeps per process: the registry of active children (workers it does not own, whose is_alive() asserts in a foreign
+    process), the registry lock in whatever state another thread left it at the moment of the fork (a nested worker then blocks for ever in
+    register_child), open pipe ends and sockets.  The process kinds are written for a fresh interpreter."""
+    P = ctx.prog
+    W = P.cls('Worker')
+    n = 0
+    for f in P.funcs.values():
+        c = f.cls
+        if c is None or W not in c.mro():
+            continue
+        for call in [x for x in ast.walk(f.node) if isinstance(x, ast.Call)]:
+            fn = call.func
+            if not (isinstance(fn, ast.Attribute) and fn.attr == 'Process'):
+                continue
+            n += 1
+            ctx.used(f)
+            src = fn.value
+            ok = isinstance(src, ast.Call) and isinstance(src.func, ast.Attribute) and src.func.attr == 'get_context' and len(src.args) == 1 \
+                and isinstance(src.args[0], ast.Constant) and src.args[0].value == 'spawn'
+            ctx.check(rule, f'{f.short}: the child process is created with the spawn start method', ok, f.short, f'start-method-not-spawn:{norm(src)[:50]}',
+                      f'`{norm(call.func)}` in {f.short} does not use get_context(\'spawn\'): with another start method (fork is the default on Linux) the child inherits the '
+                      'parent\'s registry of active children - active_children() in the child then reports and polls workers it did not create - and the registry lock in the '
+                      'state it had at the fork, so a nested worker can block for ever in register_child', where=loc(f, call))
+    ctx.floor('child process creation sites', n, 2)
